@@ -766,8 +766,14 @@ impl Sys {
             // A response can only be encrypted while the session of its request exists: if the
             // node under test dropped that session between delivery and the application's answer
             // (seen on the wire as a WHOAREYOU to that peer), the missing response is not judged.
+            // ... or the peer itself lost its session meanwhile (a WHOAREYOU *from* it): the
+            // session is then re-keyed or, after a second WHOAREYOU, dropped.
             let session_lost = cases.iter().any(|c| {
-                self.w.trace.iter().any(|(t, e)| *t >= c.delivered && *t <= c.acted + Duration::from_millis(2) && matches!(e, WEv::Sent { node: Some(n), kind: "whoareyou", .. } if *n == i))
+                self.w.trace.iter().any(|(t, e)| {
+                    *t >= c.delivered
+                        && *t <= c.acted + Duration::from_millis(2)
+                        && (matches!(e, WEv::Sent { node: Some(n), kind: "whoareyou", .. } if *n == i) || matches!(e, WEv::Injected { node: Some(n), label, .. } if *n == i && label.starts_with("whoareyou")))
+                })
             });
             if resps.len() < cases.len() && session_lost {
                 rep.count("sys_talk_session_lost_before_answer");
